@@ -136,8 +136,11 @@ fn run_on_copy(start: &std::path::Path, work: &std::path::Path, cfg: &Cfg, model
                     continue;
                 }
                 let e0 = ctx.stats.err_returns;
+                let before = work_model.clone();
                 exec_op(&mut ctx, op, &mut work_model).map_err(|f| f.at(0, Some(i)))?;
-                errored[i] = ctx.stats.err_returns > e0;
+                // a failing call = the operation returned an error and changed nothing (run operations
+                // such as PutRun can fail for one key and succeed for the others: those stay in)
+                errored[i] = ctx.stats.err_returns > e0 && before == work_model;
             }
         }
         tx.commit().map_err(|e| Failure::new("commit_err", e.to_string()))
